@@ -24,12 +24,12 @@ func resolveShimEndpoints(c *Ctx, p *Prog, rule string) *shimEndpoints {
 	}
 	se := &shimEndpoints{Create: cr, ByName: map[string]*ssa.Function{}, Patterns: map[string]ssa.Instruction{}}
 	for _, call := range Calls(cr, "(*net/http.ServeMux).HandleFunc", "(*net/http.ServeMux).Handle") {
-		a := CallOf(call).Args
+		a := PArgs(CallOf(call))
 		pj := CallResult(a[1], 0, "path.Join")
 		name := ""
 		if pj != nil {
 			// variadic: slice of array literal; find constant elements
-			for _, r := range Roots(pj.Call.Args[0]) {
+			for _, r := range Roots(PArgs(&pj.Call)[0]) {
 				if sl, ok := r.(*ssa.Slice); ok {
 					if arr, ok := sl.X.(*ssa.Alloc); ok {
 						for _, u := range Refs(arr) {
@@ -146,29 +146,29 @@ func producesResponse(i ssa.Instruction, w ssa.Value) (status int64, ok bool) {
 			var sVal ssa.Value
 			switch CalleeName(hc) {
 			case "net/http.Error":
-				wIdx, sVal = rawParam(hc.Args[0]), hc.Args[2]
+				wIdx, sVal = rawParam(PArgs(hc)[0]), PArgs(hc)[2]
 			case "(net/http.ResponseWriter).WriteHeader":
 				wIdx, sVal = rawParam(Args(hc)[0]), Args(hc)[1]
 			default:
 				return
 			}
-			if wIdx < 0 || wIdx >= len(cc.Args) || !same(cc.Args[wIdx]) || !mustExecute(in) {
+			if wIdx < 0 || wIdx >= len(PArgs(cc)) || !same(PArgs(cc)[wIdx]) || !mustExecute(in) {
 				return
 			}
 			if n, isC := ConstInt(sVal); isC {
 				st, found = n, true
 				return
 			}
-			if sIdx = rawParam(sVal); sIdx >= 0 && sIdx < len(cc.Args) {
-				if n, isC := ConstInt(cc.Args[sIdx]); isC {
+			if sIdx = rawParam(sVal); sIdx >= 0 && sIdx < len(PArgs(cc)) {
+				if n, isC := ConstInt(PArgs(cc)[sIdx]); isC {
 					st, found = n, true
 					return
 				}
 			}
 			// the status may pass through a local of the helper (statusCode := code)
 			for _, r := range Roots(sVal) {
-				if sIdx = rawParam(r); sIdx >= 0 && sIdx < len(cc.Args) {
-					if n, isC := ConstInt(cc.Args[sIdx]); isC {
+				if sIdx = rawParam(r); sIdx >= 0 && sIdx < len(PArgs(cc)) {
+					if n, isC := ConstInt(PArgs(cc)[sIdx]); isC {
 						st, found = n, true
 					}
 				}
@@ -180,12 +180,12 @@ func producesResponse(i ssa.Instruction, w ssa.Value) (status int64, ok bool) {
 	}
 	switch CalleeName(cc) {
 	case "net/http.Error":
-		if same(cc.Args[0]) {
-			n, _ := ConstInt(cc.Args[2])
+		if same(PArgs(cc)[0]) {
+			n, _ := ConstInt(PArgs(cc)[2])
 			return n, true
 		}
 	case "net/http.NotFound":
-		if same(cc.Args[0]) {
+		if same(PArgs(cc)[0]) {
 			return 404, true
 		}
 	case "(net/http.ResponseWriter).WriteHeader":
